@@ -290,17 +290,27 @@ def add_double_flatten(rnd, spec, info, ei=0):
     for t in (t1, t2):
         if len([r for r in t if r in s.decl[out]]) > 1 and rnd.random() < 0.7:
             return None
-    parts = {"(%s)" % ", ".join(t1): ["flatten()"], "(%s)" % ", ".join(t2): ["flatten()"]}
+    parts = {}
+    split = None
+    if rnd.random() < 0.35:
+        # the second group holds a rank that only exists after a (shape) split
+        split = t2[0]
+        parts[split] = ["uniform_shape(%d)" % rnd.randint(2, 4)]
+        t2 = [split + "0", t2[1]]
+    parts.update({"(%s)" % ", ".join(t1): ["flatten()"], "(%s)" % ", ".join(t2): ["flatten()"]})
     if rnd.random() < 0.5:
         parts = dict(reversed(list(parts.items())))
     flats = ["".join(t1), "".join(t2)]
     if any(f == r for f in flats for rs in s.decl.values() for r in rs):
         return None
-    rnd.shuffle(flats)
     others = [[r] for r in info["ranks"] if r not in four]
-    lo = interleave(rnd, others + [[flats[0]], [flats[1]]], True)
+    g2 = [flats[1]] if split is None else [split + "1", flats[1]]
+    groups = [[flats[0]], g2]
+    rnd.shuffle(groups)
+    lo = interleave(rnd, others + groups, True)
     _set_map(s, out, parts, lo)
-    s.tags = list(s.tags) + ["flatten", "double-flatten"]
+    s.tags = list(s.tags) + ["flatten", "double-flatten"] + (
+        ["double-flatten-after-split"] if split else [])
     return s
 
 
